@@ -6,7 +6,7 @@ Written from the OSC 1.0 specification:
   * OSC-blob: int32 size, bytes, NUL padded to a multiple of 4.
   * message: address string (starts with '/'), type tag string (starts with
     ','), arguments.  Tags: i f s b (required), d t T F N I [ ] h c r m S
-    (optional ones handled: d t T F N I h S [ ]).
+    (optional; all handled).
   * bundle: "#bundle\\0", 8-byte timetag, then (int32 size, element)*; size is
     a positive multiple of 4 and elements are messages or bundles.
 decode() is strict: any deviation raises OscError.  It consumes all bytes.
@@ -146,6 +146,15 @@ def _args(b, i, tags, k, nested):
             out.append(None)
         elif t == 'I':
             out.append(('I',))
+        elif t == 'm':       # 4 bytes: port id, status, data1, data2
+            if i + 4 > len(b): raise OscError('midi: truncated')
+            out.append(('m', tuple(b[i:i + 4]))); i += 4
+        elif t == 'r':       # 32-bit RGBA
+            if i + 4 > len(b): raise OscError('rgba: truncated')
+            out.append(('r', struct.unpack_from('>I', b, i)[0])); i += 4
+        elif t == 'c':       # ASCII character sent as 32 bits
+            if i + 4 > len(b): raise OscError('char: truncated')
+            out.append(('c', struct.unpack_from('>i', b, i)[0])); i += 4
         elif t == '[':
             sub, i, k = _args(b, i, tags, k, True)
             out.append(sub)
